@@ -185,6 +185,9 @@ def dict_to_path(data: dict, _type: Optional[str] = None, config: Optional[str] 
     result = Path(path)
     if result.as_posix() != path:
         raise SpilException(f'Path "{path}" is not kept as is by pathlib ("{result.as_posix()}"): a value cannot be a folder name.')
+    # ".." is kept by pathlib, but names the parent folder (which exists without the Sid ever having been created)
+    if ".." in result.parts:
+        raise SpilException(f'Path "{path}" contains "..": a value cannot be a folder name.')
 
     return result
 
